@@ -213,6 +213,9 @@ def case_accuflux(ctx, flw, ds, shape, seq, order, nontriv, fam):
     direction = rng.choice(["up", "up", "down"])
     data = arr.reshape(shape) if shape is not None else arr
     out = flw.accuflux(data, nodata=nd, direction=direction)
+    if seq is None:   # brand-new object: the first thing it was asked is this accumulation; the order it uses now
+        seq = canon_idx(flw.idxs_seq, n)
+        ctx.count("accuflux:first-query-on-a-new-object")
     nodata_i = int(Fraction(nd) * scale)
     impl = scaled(out, scale)
     vals = meta["ints"]
@@ -344,6 +347,11 @@ def case_uparea_geographic(ctx, ds, shape, order, nontriv):
     # keep all rows between 80S and 80N
     span = nrow * abs(yres)
     north = float(rng.randint(-75, int(75 - span))) if yres > 0 else float(rng.randint(int(-75 + span), 75))
+    if rng.random() < 0.3:
+        # the equator strictly inside a row (not on a row edge): the row's cells span both hemispheres
+        r0, frac = rng.randrange(nrow), rng.choice([0.5, 0.25, 0.75, 0.1])
+        north = (r0 + frac) * abs(yres) * (1.0 if yres < 0 else -1.0)
+        ctx.count("uparea-geographic-row-straddles-equator")
     tr = Affine(xres, 0.0, float(rng.randint(-170, 160)), 0.0, yres, north)
     if rng.random() < 0.4:
         # the same object first used as a projected grid, then switched to geographic by changing ONLY the
@@ -634,6 +642,33 @@ def one_network(ctx, ds, shape, fam, full=True):
         return
     ctx.count("idx-dtype:" + np.dtype(idt).name)
     # raster default order is 'walk', vector default is 'sort': exercise both on both
+    if rng.random() < 0.3:
+        # an object nobody has queried yet (no cell order computed): accumulation / upstream area as the first query
+        from pyflwdir.pyflwdir import FlwdirRaster
+        from pyflwdir.flwdir import Flwdir
+        for _k in range(2):
+            new = (FlwdirRaster(idxs_ds=ds_to_np(ds, idt), shape=tuple(shape), ftype="d8", cache=rng.random() < 0.7)
+                   if shape is not None else Flwdir(idxs_ds=ds_to_np(ds, idt), cache=rng.random() < 0.7))
+            if _k == 0:
+                case_accuflux(ctx, new, ds, shape, None, "default", nontriv, fam)
+            else:
+                first = [int(v) for v in np.asarray(new.upstream_area()).ravel()]
+                cnt = [0] * n
+                for i0 in range(n):          # brute force: every cell counts for each cell on its downstream path
+                    if ds[i0] == n:
+                        continue
+                    j, k = i0, 0
+                    cnt[j] += 1
+                    while ds[j] != j and ds[j] != n and k <= n:
+                        j = ds[j]
+                        cnt[j] += 1
+                        k += 1
+                ctx.evaluations += 1
+                want = [cnt[i] if ds[i] != n else -9999 for i in range(n)]
+                if first != want:
+                    bad = [i for i in range(n) if first[i] != want[i]][:5]
+                    ctx.fail({"op": "upstream_area() as first query on a new object", "ds": ds, "shape": list(shape) if shape else None},
+                             "spec", f"upstream area (cells) differs from the number of upstream cells at {bad}", impl=first, spec=want)
     order = rng.choice(["walk", "sort"])
     flw.order_cells(order)
     ctx.count("order:" + order)
